@@ -17,6 +17,8 @@ pub struct BatchResult {
     pub bad: Vec<(usize, String, String)>,
     pub stats: BTreeMap<String, u64>,
     pub dropped: Vec<(usize, Vec<String>)>,
+    /// (case index, first compiler error located inside the emitted text)
+    pub emitted_compile_errors: Vec<(usize, String)>,
     pub inconclusive: Vec<String>,
     pub steps: usize,
     /// case indices that had at least one executed step of the property
@@ -54,6 +56,7 @@ pub fn run_batch(cases: &[&Built], props: &[&'static str], seed: u64, runtimes: 
         bad: vec![],
         stats: BTreeMap::new(),
         dropped: vec![],
+        emitted_compile_errors: vec![],
         inconclusive: vec![],
         steps: 0,
         executed_cases: BTreeSet::new(),
@@ -87,10 +90,19 @@ pub fn run_batch(cases: &[&Built], props: &[&'static str], seed: u64, runtimes: 
         let built = probe::build_native(&root, &bin);
         if !built.ok {
             let mut culprits: BTreeMap<usize, Vec<String>> = BTreeMap::new();
+            // an error located in the text pyxis emitted (above the probe builder's marker
+            // line) means an accepted declaration has a wrapper that cannot be called at all
+            let emitted_lines: BTreeMap<String, usize> = pc.modules.iter().map(|(p, mf)| (p.replace("::", "__"), mf.emitted.lines().count())).collect();
             for line in built.stderr.lines() {
                 if line.contains("error") {
                     if let Some(ci) = case_of_file(line, cases) {
                         culprits.entry(ci).or_default().push(crate::verdict::one_line(line, 300));
+                        let mut parts = line.split(':');
+                        let file = parts.next().unwrap_or("").rsplit('/').next().unwrap_or("").trim_end_matches(".rs").to_string();
+                        let ln: usize = parts.next().and_then(|x| x.trim().parse().ok()).unwrap_or(usize::MAX);
+                        if emitted_lines.get(&file).map(|n| ln <= *n).unwrap_or(false) && !res.emitted_compile_errors.iter().any(|(c, _)| *c == ci) {
+                            res.emitted_compile_errors.push((ci, crate::verdict::one_line(line, 300)));
+                        }
                     }
                 }
             }
@@ -324,6 +336,10 @@ pub fn run(ctx: &mut Ctx, prop: &'static str) {
     let mut absorb = |ctx: &mut Ctx, chunk: &Vec<&Built>, r: BatchResult| {
         for (k, v) in &r.stats {
             ctx.count(k, *v);
+        }
+        for (ci, err) in &r.emitted_compile_errors {
+            let b = chunk[*ci];
+            ctx.violation(&format!("{prop}/emitted-code-does-not-compile"), &format!("the emitted module of an accepted input does not compile, so its wrappers cannot be invoked: {err}"), case_json(&b.mods, b.ptrw));
         }
         for (ci, errs) in &r.dropped {
             ctx.count("cases_dropped_compile_error", 1);
